@@ -38,6 +38,12 @@ Proof.
   assert (Rabs t * Rabs eps <= Rabs t * (/ 2 * bpow radix2 (-53 + 1))) by (apply Rmult_le_compat_l; assumption).
   lra.
 Qed.
+Lemma rnd64_error_w : forall t, Rabs (rnd64 t - t) <= Q2R u64 * Rabs t + Q2R eta64w.
+Proof.
+  intro t. pose proof (rnd64_error t) as H.
+  assert (Q2R eta64 <= Q2R eta64w) by (apply Qle_Rle, Qle_bool_iff; vm_compute; reflexivity).
+  lra.
+Qed.
 Lemma u64_nonneg : 0 <= Q2R u64.
 Proof. rewrite u64_bpow. pose proof (bpow_ge_0 radix2 (-53 + 1)). lra. Qed.
 
@@ -50,6 +56,6 @@ Theorem binary64_error_within : forall bm bv tol es, errs_within bm bv tol es = 
 Proof.
   intros bm bv tol es Hok env Henv e Hin.
   unfold errs_within in Hok. rewrite List.forallb_forall in Hok. specialize (Hok e Hin).
-  eapply Rle_trans; [apply (fe_error_bound rnd64 u64 eta64 rnd64_error u64_nonneg _ env Henv e)|].
+  eapply Rle_trans; [apply (fe_error_bound rnd64 u64 eta64w rnd64_error_w u64_nonneg _ env Henv e)|].
   apply Qle_bool_R, Hok.
 Qed.
